@@ -75,15 +75,24 @@ Definition S_certified_oracle : Prop :=
   /\ (forall i, (i < n)%nat -> 0 <= vecf xs i)
   /\ (md <> PseudoRank -> sumn n (vecf xs) == 1).
 
-(** NOT PROVED (kept as the full statement): the stopping quantity of the asynchronous
-    sweep bounds the error.  For every write order (a permutation of the nodes), every
-    staleness choice and every start vector with its consistent dangling rank, after one
-    sweep the l1 distance from the solution is at most c * alpha/(1-alpha) * (l1 change
-    of the sweep), with the constant c = 8 used by the oracle. *)
+(** the stopping quantity bounds the error, for every asynchronous iteration given as
+    equations (Jacobi, Gauss-Seidel, any mixture of old and new reads):
+    |x' - x*|_1 <= alpha/(1-alpha) |x' - x|_1, i.e. the documented "norm delta" *)
+Definition S_async_error_bound : Prop :=
+  forall n pred alpha v md x x' st y,
+  wf_input n pred alpha v ->
+  async_step n pred alpha v md x x' st -> solves n pred alpha v md y ->
+  (1 - alpha) * sumn n (fun i => Qabs (x' i - y i)) <= alpha * sumn n (fun i => Qabs (x' i - x i)).
+
+(** NOT PROVED (kept as the full statement): the same bound for the executable list-level
+    [sweep] (a fold over the write order with explicit staleness choices).  What is missing
+    is only the programming-level lemma that the result of the fold satisfies the
+    equations [async_step] for some [st]; the mathematical content is
+    [S_async_error_bound].  f64 rounding is outside the model altogether. *)
 Definition S_error_bound : Prop :=
   forall gt alpha v md order stale xs sol,
   certified gt alpha v md sol = true ->
   Permutation order (seq 0 (length gt)) -> length xs = length gt ->
   let '(xs', _, nrm) := sweep gt alpha v md order stale xs
                               (dangling_rank (length gt) (predf gt) (vecf xs)) in
-  (1 - alpha) * l1dist xs' sol <= 8 * alpha * nrm.
+  (1 - alpha) * l1dist xs' sol <= alpha * nrm.
